@@ -435,8 +435,12 @@ def _fix_index(spec, table, e, fix_field):
     fix_field(ixs, e, (ixt or {"phys": "int64"})["phys"])
 
 
+ROW_OPS = ["nullable", "unique", "check", "check", "check", "joint", "index-row", "framecheck"]
+ALL_OPS = ["nullable", "unique", "dtype", "check", "check", "strict", "ordered", "required", "joint", "index"]
+
+
 @st.composite
-def tighten(draw, case):
+def tighten(draw, case, ops=None):
     """One schema-side mutation of a (usually conforming) pair: turns on / tightens a single constraint."""
     import copy
 
@@ -444,8 +448,7 @@ def tighten(draw, case):
     spec, table = case["spec"], case["table"]
     cols = spec["columns"]
     tc = {c["name"]: c for c in table["columns"]}
-    op = draw(st.sampled_from(["nullable", "unique", "dtype", "check", "check", "strict", "ordered", "required",
-                               "joint", "index"]))
+    op = draw(st.sampled_from(ops or ALL_OPS))
     plain = [c for c in cols if not c.get("regex") and c["name"] in tc]
     if op in ("nullable", "unique", "dtype", "check") and plain:
         c = draw(st.sampled_from(plain))
@@ -475,6 +478,17 @@ def tighten(draw, case):
     elif op == "joint" and len(plain) >= 1 and spec.get("kind", "dataframe") == "dataframe":
         k = draw(st.integers(1, min(2, len(plain))))
         spec["unique"] = [c["name"] for c in plain[:k]]
+    elif op == "framecheck" and spec.get("kind", "dataframe") == "dataframe" and table["columns"] and \
+            all(t["phys"] in ("int64", "int32", "float64", "float32") for t in table["columns"]):
+        allc = [c for t in table["columns"] for c in t["cells"]]
+        phys = "float64" if any(t["phys"].startswith("float") for t in table["columns"]) else "int64"
+        cs = draw(derived_check(phys, allc, allow_ignore_na_false=False))
+        if cs["kind"] != "unique_values_eq":
+            spec["checks"] = [cs]
+    elif op == "index-row" and spec.get("index") and "multi" not in spec["index"]:
+        ixs, ixt = spec["index"], table.get("index")
+        if ixt is not None and "multi" not in ixt and ixs.get("dtype") not in (None, "object"):
+            ixs["checks"] = [draw(derived_check(ixt["phys"], ixt["cells"], allow_ignore_na_false=False))]
     elif op == "index" and spec.get("index") and "multi" not in spec["index"]:
         which = draw(st.sampled_from(["unique", "name", "nullable"]))
         if which == "unique":
